@@ -27,12 +27,19 @@ type C18Scenario struct {
 	FinalNL  bool     `json:"final_nl"`
 	EpochS   int      `json:"epoch_s"` // the client starts this many seconds after the simulated epoch
 	Up       []int    `json:"up"`      // indices of entries (hosts) where a server actually listens
+	// Tail: a follow client (dtail), which re-dials every server 2 s after its
+	// connection failed, until it is interrupted after 5 s: every wanted address is
+	// dialled one to four times, nothing else ever
+	Tail bool `json:"tail,omitempty"`
 }
 
 func c18Gen(r *Rand, tier string, i int) Scenario {
 	sc := &C18Scenario{}
 	sc.Sched = GenSched(r)
 	n := PickOf(r, 1, 2, 3, 5, 10, 40, 200)
+	if r.Bool(0.04) {
+		n = PickOf(r, 330, 450) // server files beyond the 4096-byte scanner buffer
+	}
 	if tier == "thorough" && r.Bool(0.1) {
 		n = PickOf(r, 1000, 3000)
 	}
@@ -52,6 +59,7 @@ func c18Gen(r *Rand, tier string, i int) Scenario {
 	sc.FromFile = r.Bool(0.4)
 	sc.FinalNL = r.Bool(0.7)
 	sc.EpochS = PickOf(r, 0, 1, r.Intn(1000000), r.Intn(1000000))
+	sc.Tail = n <= 40 && r.Bool(0.15)
 	return sc
 }
 
@@ -92,7 +100,25 @@ func c18Run(t *testing.T, s Scenario, src verifsim.DecisionSource, keep bool) *R
 			a.ServersStr = strings.Join(sc.Entries, ",")
 		}
 		proc = &ClientProc{Kind: "cat", Args: a}
-		w.RunClient(proc, false)
+		if sc.Tail {
+			proc.Kind = "tail"
+			done := make(chan struct{})
+			w.Sim.GoOn(w.ClientNode, "harness/client", func() {
+				defer close(done)
+				w.RunClient(proc, false)
+			})
+			w.Sleep(5 * time.Second)
+			if proc.Cancel != nil {
+				proc.Cancel()
+			}
+			verifsim.Yield("harness/waitclient")
+			select {
+			case <-done:
+			case <-time.After(30 * time.Second):
+			}
+		} else {
+			w.RunClient(proc, false)
+		}
 		dials = append([]string(nil), w.Net.Dials...)
 	})
 	res.NonTrivial = len(sc.Entries) >= 2
@@ -124,6 +150,12 @@ func c18Run(t *testing.T, s Scenario, src verifsim.DecisionSource, keep bool) *R
 	}
 	var diffs []string
 	for a, n := range want {
+		if sc.Tail {
+			if got[a] < 1 || got[a] > 4*n {
+				diffs = append(diffs, fmt.Sprintf("%s dialled %d times by a follow client in 5 s (expected 1 to %d)", a, got[a], 4*n))
+			}
+			continue
+		}
 		if got[a] != n {
 			diffs = append(diffs, fmt.Sprintf("%s contacted %d times (expected %d)", a, got[a], n))
 		}
